@@ -906,3 +906,30 @@ for _era, _rng, _pre in (('bce', '[-40, 40] without 0', '-40 <= year <= 40'), ('
         for _mlo, _mhi in ((1, 6), (7, 12)):
             define(_YM.format(name=_era + ('_sub' if _sub else '_add') + '_m%d' % _mlo, rng=_rng, pre=_pre, sub=_sub, mlo=_mlo, mhi=_mhi,
                               what='subtracted' if _sub else 'added'), globals())
+
+
+# --- added after the round-4 baseline reports: adjust-date-to-timezone gives the date of the starting instant in the new timezone -------------
+
+_ADJ_TZ = ('-14:00', '-12:00', '-10:00', '-05:00', 'Z', '+09:30', '+10:00', '+10:30', '+12:00', '+13:00', '+14:00')
+_ADJ_MIN = (-840, -720, -600, -300, 0, 570, 600, 630, 720, 780, 840)
+_ADJ_DATES = (('2002-03-07', ('2002-03-05', '2002-03-06', '2002-03-07', '2002-03-08')), ('2004-03-01', ('2004-02-28', '2004-02-29', '2004-03-01', '2004-03-02')),
+              ('0001-01-02', ('-0001-12-31', '0001-01-01', '0001-01-02', '0001-01-03')))      # (a date in year 10000 is SPURIOUS under CrossHair's datetime model: not claimed)
+T_ADJD = parse_all({'d': 'string(adjust-date-to-timezone(xs:date($d), xs:dayTimeDuration($z)))'})['d']
+
+
+@ob(budget=240, bound='xs:date from {2002-03-07, 2004-03-01, 0001-01-02} with a timezone from a table of 11 (-14:00 .. +14:00, half hours included), '
+                      'adjusted to a timezone from the same table (all indices chosen by the solver, text concrete on each path): the result is the date, in the new '
+                      'timezone, of the instant at which the date starts (between two days earlier and one day later), with the new timezone',
+    funcs=['elementpath/xpath_tokens/base.py:adjust_datetime (xs:date branch)', D + ':AbstractDateTime._operation (DayTimeDuration)'])
+def adjust_date_day_shift(oi: int, zi: int, di: int) -> bool:
+    """
+    pre: 0 <= oi <= 10 and 0 <= zi <= 10 and 0 <= di <= 2
+    post: _
+    """
+    o, z = [k for k in range(11) if k == oi][0], [k for k in range(11) if k == zi][0]
+    base, shifted = _ADJ_DATES[[k for k in range(3) if k == di][0]]
+    shift = (_ADJ_MIN[z] - _ADJ_MIN[o]) // 1440            # whole days, rounding down: -2, -1, 0 or 1
+    zmin = _ADJ_MIN[z]
+    dur = ('-' if zmin < 0 else '') + 'PT%dH%dM' % (abs(zmin) // 60, abs(zmin) % 60)
+    r = L(T_ADJD.evaluate(XPathContext(item=1, variables={'d': base + _ADJ_TZ[o], 'z': dur})))
+    return r == [shifted[shift + 2] + _ADJ_TZ[z]]
